@@ -1,16 +1,6 @@
-use ip::traits::PrefixSet as _;
 use rpsl::expr::MpFilterExpr;
-use std::io::{BufRead, BufReader, Write};
 fn main() {
-    let l = std::net::TcpListener::bind("127.0.0.1:0").unwrap();
-    let port = l.local_addr().unwrap().port();
-    std::thread::spawn(move || { for s in l.incoming() { let s = s.unwrap(); let mut o = s.try_clone().unwrap(); for line in BufReader::new(s).lines() { let line = line.unwrap(); if line.starts_with("!n") { o.write_all(b"C\n").unwrap(); } else if line != "!!" { o.write_all(b"D\n").unwrap(); } } } });
-    let mut ev = bgpfu::RpslEvaluator::new("127.0.0.1", port).unwrap();
     for s in std::env::args().skip(1) {
-        let e: MpFilterExpr = s.parse().unwrap();
-        let t = std::time::Instant::now();
-        let r = ev.evaluate(e).map(|set| set.ranges().map(|r| r.to_string()).collect::<Vec<_>>());
-        let el = t.elapsed();
-        match r { Ok(v) => println!("{s}\n   -> {} ranges in {el:?}: {:?}", v.len(), &v[..v.len().min(6)]), Err(e) => println!("{s} -> ERR {e}") }
+        match s.parse::<MpFilterExpr>() { Ok(e) => println!("{s:40} OK -> {e}"), Err(e) => println!("{s:40} ERR {e}") }
     }
 }
